@@ -71,11 +71,6 @@ def abstract_segments(I, modes_present=None, single=False):
         I.assume(total == 1)
     else:
         I.assume(total >= 1)
-    # Segments.add_segment merges a part into its predecessor when mode and
-    # encoding are equal, so no two adjacent segments are of one class; a
-    # multiset can be arranged that way iff every class count <= others + 1
-    for k in SEG_CLASSES:
-        I.assume(cnt[k] <= total - cnt[k] + 1)
     # make_segment: a numeric / alphanumeric / kanji part holds at least one
     # character (empty content is byte mode), i.e. >= 4 / 6 / 13 payload bits
     I.assume(payload >= 4 * cnt[('numeric', None)] + 6 * cnt[('alphanumeric', None)] + 13 * cnt[('kanji', None)])
